@@ -94,7 +94,7 @@ def judge_fonts(a):
     return missing, unused
 
 
-FONTS = docgen.FONTS + ["Custom, Arial"]
+FONTS = docgen.FONTS + ["Custom, Arial", "'Open Sans', Helvetica, Arial, sans-serif", "Georgia, 'Lato', serif", "'Montserrat', sans-serif"]
 TEXTY = ("mj-text", "mj-button", "mj-social", "mj-social-element", "mj-navbar", "mj-navbar-link", "mj-accordion", "mj-accordion-element",
          "mj-accordion-title", "mj-accordion-text", "mj-table")
 
